@@ -68,7 +68,7 @@ def gen(tier, seed):
     n = 12000 if tier == 'quick' else 200000
     made = 0
     while made < n:
-        so = G.SchemaOpts(funcs=True, keystrval=False, nodefault=True, depth=2, maxopts=4)
+        so = G.SchemaOpts(funcs=True, keystrval=False, nodefault=True, depth=2, maxopts=4, deprecated=rng.random() < 0.3)      # (deprecated / dropped options are validated like any other)
         decls = G.gen_schema(rng, so)
         regs = []
         assign_callbacks(rng, decls, regs)
